@@ -16,7 +16,7 @@ RULE = ("histories of 4..14 events over {contact reinstalls with a fresh identit
         "current install sends to the observer, identity-change notification (observer fetches the contact's keys), observer restarts, "
         "automatic trust switched on/off} for an observer and 1-2 contacts (2-3 accounts), each followed by a randomly scheduled run of the "
         "server double to quiescence; every create_session / handleEncMessage / encrypt of the observer is one model event; "
-        "distinct = distinct history.")
+        "stream 'author': every chat shape x participant x envelope kind: the real getAuthor against the model's author. distinct = distinct history.")
 ASSUMPTIONS = ["python-axolotl's SessionBuilder refuses an identity the store does not trust and saves the identity it accepts (exercised, not modelled)",
                "an install that was replaced never comes back (restoring an old identity would revive archived ratchet states, which the property does not speak about)"]
 
